@@ -510,8 +510,17 @@ func c46Loop(t *testing.T, start, current uint64, nAttempts int) c46LoopRecord {
 			return nil, 0, fmt.Errorf("verif: attempt fails")
 		})
 	// the contexts armed through withCancelOnBlock call waitFn from goroutines
-	expect := 3 * len(doneCheck.attempts)
-	kit.Eventually(20*time.Second, func() bool { mu.Lock(); defer mu.Unlock(); return len(waited) >= expect })
+	// (asynchronously). Every attempt that ran waits three times (announcement
+	// start, announcement end, timeout block); the attempt at which the
+	// announcer stops the loop waits twice. Wait for exactly that many records;
+	// fewer after a long wait is a harness failure, never a verdict.
+	expect := 3*len(doneCheck.attempts) + 2
+	if !kit.Eventually(120*time.Second, func() bool { mu.Lock(); defer mu.Unlock(); return len(waited) >= expect }) {
+		mu.Lock()
+		n := len(waited)
+		mu.Unlock()
+		t.Fatalf("c46 harness: retry loop recorded %d of %d expected block waits within 120 s", n, expect)
+	}
 	mu.Lock()
 	defer mu.Unlock()
 	sort.Slice(waited, func(i, j int) bool { return waited[i] < waited[j] })
